@@ -18,7 +18,7 @@
    definitions.  `exists r, run.. = Ok r` is totality: no internal exception. *)
 From Coq Require Import ZArith List Bool.
 From HV Require Import Base.Word Base.SmtBV Model.PyInt Model.WordOpsIR Gen.GenBitvecGuards Gen.GenWordOps
-  Model.BitVecModel Proofs.BitVecProofs.
+  Model.BitVecModel Proofs.BitVecProofs Proofs.WordSpecCheck.
 Import ListNotations.
 Open Scope Z_scope.
 
@@ -420,3 +420,68 @@ Example C06_nonvacuous :
   run2 2 EXP (VBV (Cv 3)) (VBV (Cv 1000)) = Ok (VBV (Cv (3 ^ 1000 mod 2 ^ 256))) /\
   exp_work 256 (Cv 3) (Cv (2 ^ 200 + 5)) = 514.
 Proof. cbv zeta. repeat split; vm_compute; try reflexivity; discriminate. Qed.
+
+(* ---- validation of the specification itself (Base/Word.v) against a second, bit-level reading of the
+   EVM instructions (Proofs/WordSpecCheck.v): the spec the theorems above compare halmos with maps words
+   to words, NOT is xor with the all-ones word, the shifts are the machine shifts, BYTE is shift-and-mask,
+   SAR saturates to the sign, SDIV truncates toward zero with the single overflowing case
+   (-2^255) / (-1) = -2^255, SMOD takes the sign of the dividend.  For every operand. *)
+Theorem C06_spec_closed a b : in_word a -> in_word b -> 0 <= b ->
+  in_word (evm_add a b) /\ in_word (evm_sub a b) /\ in_word (evm_mul a b) /\ in_word (evm_div a b) /\
+  in_word (evm_mod a b) /\ in_word (evm_sdiv a b) /\ in_word (evm_smod a b) /\ in_word (evm_not a) /\
+  in_word (evm_shl b a) /\ in_word (evm_shr b a) /\ in_word (evm_sar b a) /\
+  in_word (evm_lt a b) /\ in_word (evm_gt a b) /\ in_word (evm_slt a b) /\ in_word (evm_sgt a b) /\
+  in_word (evm_eq a b) /\ in_word (evm_iszero a).
+Proof.
+  intros Ha Hb Hb0. pose proof (spec_cmp_closed a b) as (H1 & H2 & H3 & H4 & H5 & H6).
+  repeat split;
+    first [ apply spec_add_closed | apply spec_sub_closed | apply spec_mul_closed
+          | apply spec_div_closed; assumption | apply spec_mod_closed; assumption
+          | apply spec_sdiv_closed | apply spec_smod_closed | apply spec_not_closed; assumption
+          | apply spec_shl_closed | apply spec_shr_closed; assumption | apply spec_sar_closed
+          | apply H1 | apply H2 | apply H3 | apply H4 | apply H5 | apply H6 ].
+Qed.
+Print Assumptions C06_spec_closed.
+
+Theorem C06_spec_signed_roundtrip x : in_word x -> - W2 <= Word.to_signed x < W2 /\ wrap (Word.to_signed x) = x.
+Proof. intros H; split; [exact (to_signed_range x H) | exact (wrap_to_signed x H)]. Qed.
+Print Assumptions C06_spec_signed_roundtrip.
+
+Theorem C06_spec_not_is_xor_ones a : in_word a -> evm_not a = Z.lxor a (W - 1).
+Proof. exact (spec_not_is_xor_ones a). Qed.
+Print Assumptions C06_spec_not_is_xor_ones.
+
+Theorem C06_spec_shifts s x : 0 <= s < 256 ->
+  evm_shl s x = wrap (Z.shiftl x s) /\ evm_shr s x = Z.shiftr x s /\
+  evm_sar s x = wrap (Z.shiftr (Word.to_signed x) s).
+Proof.
+  intros H; split; [exact (spec_shl_is_shiftl s x H)|split;
+    [exact (spec_shr_is_shiftr s x H) | exact (spec_sar_is_signed_shiftr s x H)]].
+Qed.
+Print Assumptions C06_spec_shifts.
+
+Theorem C06_spec_sar_saturates s x : 256 <= s -> in_word x ->
+  evm_sar s x = if x <? W2 then 0 else W - 1.
+Proof. exact (spec_sar_saturates s x). Qed.
+Print Assumptions C06_spec_sar_saturates.
+
+Theorem C06_spec_byte_is_shift_mask i x : 0 <= i < 32 ->
+  evm_byte i x = Z.land (Z.shiftr x (8 * (31 - i))) 255.
+Proof. exact (spec_byte_is_shift_mask i x). Qed.
+Print Assumptions C06_spec_byte_is_shift_mask.
+
+Theorem C06_spec_sdiv_overflow : evm_sdiv W2 (W - 1) = W2.
+Proof. exact spec_sdiv_overflow. Qed.
+Print Assumptions C06_spec_sdiv_overflow.
+
+Theorem C06_spec_sdiv_signed a b : in_word a -> in_word b -> b <> 0 -> ~ (a = W2 /\ b = W - 1) ->
+  Word.to_signed (evm_sdiv a b) = Z.quot (Word.to_signed a) (Word.to_signed b).
+Proof. exact (spec_sdiv_signed a b). Qed.
+Print Assumptions C06_spec_sdiv_signed.
+
+Theorem C06_spec_smod_signed a b : in_word a -> in_word b -> b <> 0 ->
+  Word.to_signed (evm_smod a b) = Z.rem (Word.to_signed a) (Word.to_signed b) /\
+  Z.abs (Word.to_signed (evm_smod a b)) < Z.abs (Word.to_signed b) /\
+  0 <= Word.to_signed (evm_smod a b) * Word.to_signed a.
+Proof. exact (spec_smod_signed a b). Qed.
+Print Assumptions C06_spec_smod_signed.
